@@ -10,6 +10,7 @@
  *   qs | offline | online  qsbr only
  *   yield                  application-level spin hint
  *   T0: spawn t | join t   thread life-time control (default: spawn all, join all)
+ *   T0: herd n | unherd    n extra threads that register (first read-side call) and stay alive until unherd (bp registry growth, C15)
  *
  * Oracles (DESIGN.md §4): grace-period interval oracle over every lock/unlock pair (and qsbr
  * online periods), value litmus, pointer/shadow-heap oracle, reader-state restoration across
@@ -29,7 +30,7 @@
 #define MAXTH 16
 
 enum { EV_SEC_BEGIN = 1, EV_SEC_END, EV_SYNC_ENT, EV_SYNC_RET };
-enum { CF_GP_WAITED = 0, CF_SYNC_CONCURRENT = 1, CF_NESTED = 2, CF_SIG_IN_LIB = 3, CF_REG_DURING_GP = 4, CF_HANDLER_SEC = 5, CF_BP_GROW = 6, CF_SOLO_DURING_GP = 7, CF_WAITED_FOR_GP = 8 };
+enum { CF_GP_WAITED = 0, CF_SYNC_CONCURRENT = 1, CF_NESTED = 2, CF_SIG_IN_LIB = 3, CF_REG_DURING_GP = 4, CF_HANDLER_SEC = 5, CF_BP_GROW = 6, CF_SOLO_DURING_GP = 7, CF_WAITED_FOR_GP = 8, CF_HERD = 9 };
 
 struct node { unsigned long gen, chk; };
 
@@ -233,10 +234,10 @@ static void on_signal(int tid)
 static NS void set_registered(int v) { me_ts()->registered = v; if (sync_active) ds_flag(CF_REG_DURING_GP); }
 static NS void set_online(int v) { me_ts()->online = v; }
 
-enum { OP_REG, OP_UNREG, OP_LOCK, OP_UNLOCK, OP_READ, OP_SYNC, OP_QS, OP_OFFLINE, OP_ONLINE, OP_YIELD, OP_SPAWN, OP_JOIN, OP_GATE, OP_WAITSYNC, OP_QSWAIT, OP_BAD };
+enum { OP_REG, OP_UNREG, OP_LOCK, OP_UNLOCK, OP_READ, OP_SYNC, OP_QS, OP_OFFLINE, OP_ONLINE, OP_YIELD, OP_SPAWN, OP_JOIN, OP_GATE, OP_WAITSYNC, OP_QSWAIT, OP_HERD, OP_UNHERD, OP_BAD };
 static NS int fetch(int t, int i, long *a0)
 {
-	static const char *names[] = { "reg", "unreg", "lock", "unlock", "read", "sync", "qs", "offline", "online", "yield", "spawn", "join", "gate", "waitsync", "qswait" };
+	static const char *names[] = { "reg", "unreg", "lock", "unlock", "read", "sync", "qs", "offline", "online", "yield", "spawn", "join", "gate", "waitsync", "qswait", "herd", "unherd" };
 	const struct ds_op *o = ds_op(t, i);
 	*a0 = o->a[0];
 	for (int k = 0; k < OP_BAD; k++) if (!strcmp(o->name, names[k])) return k;
@@ -303,6 +304,33 @@ static void *thread_main(void *arg)
 	return NULL;
 }
 
+/* herd (bp, C15): n extra threads that each make a first read-side call (lazy registration), then stay alive - blocked on a mutex T0 holds - so that
+ * more threads are registered at once than the registry's doubled capacities hold; every fourth one blocks inside its read-side critical section.
+ * After T0's `unherd` each reads again (slot unmoved, contents intact) and exits. */
+static pthread_mutex_t herd_lock = PTHREAD_MUTEX_INITIALIZER;
+static int herd_ids[32], nherd;
+static int herd_arrived;
+static NS void herd_arrive(void) { herd_arrived++; }
+static NS int herd_all_arrived(void) { return herd_arrived >= nherd; }
+static void *herd_main(void *arg)
+{
+	int k = (int)(long)arg, hold = (k % 4) == 3;
+	do_lock(); do_read(0);
+#ifdef FL_BP
+	bp_slot_check();
+#endif
+	if (!hold) do_unlock();
+	herd_arrive();
+	pthread_mutex_lock(&herd_lock); pthread_mutex_unlock(&herd_lock);
+	if (!hold) do_lock();
+	do_read(0);
+#ifdef FL_BP
+	bp_slot_check();
+#endif
+	do_unlock();
+	return NULL;
+}
+
 static NS void note_live(int d)
 {
 #ifdef FL_BP
@@ -315,7 +343,9 @@ static NS void slot_reuse_oracle(void)
 {
 #ifdef FL_BP
 	/* arena_alloc hands out the first free slot: with at most `peak` threads alive at once, at most `peak` distinct slots are ever used */
-	if (nslots_seen > peak_threads)
+	/* (not when the case runs before the library's constructor: the registry is then torn down whenever the last registered thread leaves and rebuilt at
+	 * another address on the next first use, so distinct addresses no longer count slots) */
+	if (nslots_seen > peak_threads && !ds_cfg("early", 0))
 		ds_fail("bp: %d distinct reader slots were handed out although at most %d threads were alive at any time: slots of exited threads are not reused", nslots_seen, peak_threads);
 #endif
 }
@@ -356,6 +386,21 @@ static void scenario(void)
 			int op = fetch(0, i, &a0);
 			ds_op_begin(i);
 			int t = (int)a0;
+			if (op == OP_HERD) {
+				if (nherd || a0 < 1 || a0 > 32) ds_bad_case("gp: bad herd");
+				pthread_mutex_lock(&herd_lock);
+				for (nherd = 0; nherd < (int)a0; nherd++) { herd_ids[nherd] = ds_spawn(herd_main, (void *)(long)nherd); note_live(1); }
+				ds_flag(CF_HERD);
+				continue;
+			}
+			if (op == OP_UNHERD) {
+				if (!nherd) ds_bad_case("gp: unherd without herd");
+				while (!herd_all_arrived()) ds_yield();	/* all of them registered and alive at once */
+				pthread_mutex_unlock(&herd_lock);
+				for (int k = 0; k < nherd; k++) { ds_join(herd_ids[k]); note_live(-1); }
+				nherd = 0;
+				continue;
+			}
 			if (t < 1 || t >= np) ds_bad_case("gp: bad thread in T0 program");
 			if (op == OP_SPAWN) { tids[t] = ds_spawn(thread_main, (void *)(long)t); note_live(1); }
 			else if (op == OP_JOIN) { ds_join(tids[t]); note_live(-1); }
